@@ -381,6 +381,12 @@ func stripLines(s string) string {
 }
 
 func faultWorker(task []byte) []byte {
+	var probe struct {
+		Checks string `json:"checks"`
+	}
+	if json.Unmarshal(task, &probe) == nil && probe.Checks != "" {
+		return seqWorker(nil)(task) // layout-feature search
+	}
 	var t faultTask
 	if err := json.Unmarshal(task, &t); err != nil {
 		return explore.MustJSON(faultResult{Viol: []string{"bad task"}})
@@ -389,14 +395,40 @@ func faultWorker(task []byte) []byte {
 }
 
 // runFaultCheck enumerates histories x fault plans. which = "C08" (answers) or "C09" (liveness).
-func runFaultCheck(c *explore.Ctx, id string, cfgs []string, histories [][]string, quick bool, double bool) {
+type cfgHist struct {
+	cfg string
+	ops []string
+}
+
+var richAlpha = []string{"put:a", "put:b", "put:c", "del:a", "del:c", "w:-a,-c", "q", "cr"}
+
+// richHistories: shortest histories reaching deep / tombstone-rich / multi-table layouts in
+// the "mixed" configuration, each continued by a full compaction or a quiesce.
+func richHistories(c *explore.Ctx, id string, depth, max int) []cfgHist {
 	pool := explore.NewPool(0, "worker", id)
 	defer pool.Close()
-	type hist struct {
-		cfg string
-		ops []string
+	var out []cfgHist
+	for _, cfg := range []string{"mixed/bytewise", "deep/bytewise"} {
+		hs, feats := findRichHistories(c, pool, cfg, richAlpha, depth, max)
+		c.Coverage["layout_features_"+cfg] = feats
+		for _, h := range hs {
+			out = append(out, cfgHist{cfg, append(append([]string{}, h...), "cr", "q")})
+			out = append(out, cfgHist{cfg, append(append([]string{}, h...), "q", "Sput:b", "q")})
+		}
 	}
+	c.Coverage["rich_histories"] = len(out)
+	if len(out) > 0 {
+		c.Sample(map[string]any{"rich_history": out[0].ops, "cfg": out[0].cfg})
+	}
+	return out
+}
+
+func runFaultCheck(c *explore.Ctx, id string, cfgs []string, histories [][]string, quick bool, double bool, extra ...cfgHist) {
+	pool := explore.NewPool(0, "worker", id)
+	defer pool.Close()
+	type hist = cfgHist
 	var hs []hist
+	hs = append(hs, extra...)
 	for _, cfg := range cfgs {
 		if !cfgSelected(cfg) {
 			continue
@@ -571,7 +603,11 @@ func init() {
 					hist = append(hist, s)
 				}
 			}
-			runFaultCheck(c, "C08", cfgs, hist, false, !quick)
+			rd, rmax := 5, 6
+			if !quick {
+				rd, rmax = 7, 16
+			}
+			runFaultCheck(c, "C08", cfgs, hist, false, !quick, richHistories(c, "C08", rd, rmax)...)
 			c.Coverage["rule"] = "per history (all sequences up to the depth over the alphabet plus 6 long histories, per configuration): one run per fault plan = k-th operation of each (kind, file type) seen in the fault-free baseline x {fail once, fail 3x, half-written write, performed-but-reported-failed, flipped read byte}; thorough adds ordered pairs of single faults on the short histories; oracle: contents while running and after clean close + fault-free reopen must be explained by all acknowledged writes plus some subset of the failed ones; distinct_nontrivial = distinct (history, plan) whose error surfaced to a client call"
 			c.Coverage["alphabet"] = c08Alpha
 			c.Assume = []string{"faults start after the initial Open", "the history runs on the default schedule; timers on the virtual clock (120 virtual seconds of settling after the history)", "a reopen failure after a half-written record is attributed to the fault (durable bytes damaged) and not reported"}
